@@ -1,6 +1,7 @@
 /-
   GFO.Model.SmboBackend — COMPLETE backend for the surrogate-model optimizers that share `SMBO._propose_location`
-  (smb_opt/smbo.py with bayesian_optimization.py, tree_structured_parzen_estimators.py, forest_optimizer.py): the training
+  (smb_opt/smbo.py with bayesian_optimization.py, tree_structured_parzen_estimators.py, forest_optimizer.py) and for
+  `LipschitzOptimizer` (global_opt/lipschitz_optimization.py: the same base class with its own `iterate`): the training
   lists `X_sample` / `Y_sample` through `track_X_sample` / `track_y_sample`, the candidate set built in
   `finish_initialization` (constraint filter) and shrunk by `_remove_position` (`replacement=False`), the
   `try: self._training() except ValueError: return self.move_random()` fallback, candidate subsampling, the choice
@@ -17,6 +18,7 @@ namespace GFO
 structure SmboCfg where
   replacement : Bool
   trainsOnEmpty : Bool        -- ForestOptimizer: `_training` returns early when `Y_sample` is empty (then predicts unfitted)
+  lipschitz : Bool := false   -- LipschitzOptimizer: its own `iterate` - no training step; `cdist` refuses an empty `X_sample`
   geo : Geo
 deriving Repr, DecidableEq, Inhabited
 
@@ -71,6 +73,18 @@ def proposeByModel (cands : List Pos) : Tape → Except Err (Pos × Tape)
 
 /-- `_propose_location()` -/
 def smboPropose (cfg : SmboCfg) (s : SmboSt) : Except Err (Pos × Tape) :=
+  if cfg.lipschitz then
+    -- `pos_comb = self._sampling(…)`; `LipschitzFunction.calculate(X_sample, …)` (scipy's cdist raises ValueError on an empty
+    -- sample array - the known C15 finding); the first row of the descending order of the upper bounds (IndexError when no
+    -- candidate is left)
+    match s.tape with
+    | .parents idxs :: rest =>
+      match sampleCands s.sm.cands idxs with
+      | .error e => .error e
+      | .ok pc => if s.sm.X = [] then .error .valueError else pickByAcq pc rest
+    | [] => .error .needMore
+    | _ => .error (protocol "_sampling")
+  else
   match s.tape with
   | .int trained :: rest =>
     if trained = 0 then moveRandomLoop rest          -- `except ValueError: return self.move_random()`
